@@ -92,6 +92,10 @@ pub struct Director {
     /// Candidate clock advances, in nanoseconds.
     pub tick_sizes: Vec<i64>,
     pub max_steps: u64,
+    /// Monotone progress measure of the scenario. When set, "stuck" means: the measure did not
+    /// change while the clock was advanced 200 times with nothing else to do (tasks woken merely
+    /// by the clock, e.g. context deadline watchers, do not count as progress).
+    pub progress: Option<Box<dyn Fn() -> u64>>,
 }
 
 pub enum DriveEnd {
@@ -111,6 +115,7 @@ impl Director {
             tick_pct: 10,
             tick_sizes: vec![1, 1_000, 1_000_000],
             max_steps: 20_000,
+            progress: None,
         }
     }
 
@@ -135,6 +140,7 @@ impl Director {
         mut on_step: impl FnMut(&mut Self),
     ) -> DriveEnd {
         let mut idle_ticks = 0u32;
+        let mut last_progress = self.progress.as_ref().map(|p| p());
         loop {
             self.sched.settle().await;
             if done() {
@@ -159,8 +165,17 @@ impl Director {
                 }
                 self.advance(ns);
             } else {
-                idle_ticks = 0;
                 self.sched.step().await;
+                match &self.progress {
+                    None => idle_ticks = 0,
+                    Some(p) => {
+                        let now = Some(p());
+                        if now != last_progress {
+                            last_progress = now;
+                            idle_ticks = 0;
+                        }
+                    }
+                }
             }
             on_step(self);
         }
